@@ -411,3 +411,64 @@ def complete(ctx, prog, wa, cba, fparam, sinks, saves, closes):
     ws = [c for c in sv.calls(dotted_name="self.writing.set")]
     ok = len(ws) == 1 and bool(wt) and sv.must_precede(wt[0], lambda n: n is ws[0]) is None
     ctx.ob("C01-D5/ORDER", ok, sv.site(), "the writing flag is raised before the write task starts (a second winner cannot start a second write)", func=sq)
+
+
+# ------------------------------------------------------------------------------------------------ third pass: the file-backed sibling and the manager
+_check_c01_second = check
+
+
+def siblings(ctx):
+    """BlobFile / BlobBuffer refine AbstractBlob and BlobManager hands out ONE object per hash: the guarantees decided on the base class
+    hold for the objects the daemon really uses only if the overrides keep the base behaviour as a component."""
+    prog = ctx.prog
+    R.override_refines(ctx, "C01-D6/OVERRIDE", ABS, "is_writeable", "and-super",
+                       "a subclass may only make `writeable` stricter: the base test (no write in progress) stays a conjunct — otherwise two finished writers both save")
+    R.override_refines(ctx, "C01-D6/OVERRIDE", ABS, "get_blob_writer", "forward",
+                       "the writer is created and registered by the base method under the full (address, port) key — a shortened key lets one writer's "
+                       "clean-up unregister another, live writer, which is then never shut down")
+    R.override_refines(ctx, "C01-D6/OVERRIDE", ABS, "delete", "super-toplevel", "deleting always runs the base delete (writers closed, verified and length cleared)", floor=2)
+    R.override_refines(ctx, "C01-D6/OVERRIDE", ABS, "__init__", "super-toplevel", "construction always runs the base constructor, all parameters handed on", floor=2)
+    # the job that stores the bytes is awaited by the write task: `verified` (a done-callback of that task) means the bytes ARE stored
+    R.executor_jobs_awaited(ctx, "C01-D6/AWAIT", [f"{BF}._write_blob.<locals>.write_blob"],
+                            "the write task ends only when the executor job that writes the file has ended (verified ⇒ bytes on disk)")
+    wb = ctx.fa(f"{BF}._write_blob")
+    ct = [c for c in wb.calls(name="create_task")]
+    ok = len(ct) == 1 and isinstance(ct[0].args[0], ast.Call) and dotted(ct[0].args[0].func) == "write_blob" and \
+        all(isinstance(r.value, ast.Call) and r.value is ct[0] for r in wb.stmts(ast.Return)) and bool(wb.stmts(ast.Return))
+    ctx.ob("C01-D6/DEP", ok, wb.site(), "BlobFile._write_blob returns the task that runs write_blob()", func=wb.fi.qualname)
+    inner = ctx.fa(f"{BF}._write_blob.<locals>._write_blob")
+    opens = [c for c in inner.calls(name="open")]
+    ok = len(opens) == 1 and len(opens[0].args) >= 2 and unparse(opens[0].args[0]) == "self.file_path" and is_const(opens[0].args[1], "wb")
+    ctx.ob("C01-D6/DEP", ok, inner.site(), "the bytes go to the blob's own path, opened 'wb' (truncating)", func=inner.fi.qualname)
+    fe = ctx.fa(f"{BF}.file_exists")
+    r = R.single_return_value(fe)
+    ctx.ob("C01-D6/DEP", r is not None and unparse(r.value) == "os.path.isfile(self.file_path)", fe.site(), "file_exists == the blob's path is a file", func=fe.fi.qualname)
+    # BlobFile.get_blob_writer refuses when the file is already there
+    gw = ctx.fa(f"{BF}.get_blob_writer")
+    for r in gw.stmts(ast.Return):
+        R.exact_gate(ctx, "C01-D6/GATE", gw, r, "not self.file_exists", "a writer is handed out exactly when no file exists yet", key=f"C01-D6/GATE|{gw.fi.qualname}|exists-exact")
+    # ---- the manager: one live object per hash decides
+    bm = "lbry.blob.blob_manager.BlobManager"
+    iv = ctx.fa(f"{bm}.is_blob_verified")
+    hp = iv.fi.params()[1]
+    fresh = [c for c in iv.calls() if call_name(c) in ("_get_blob", "BlobFile", "BlobBuffer")]
+    ctx.floor("C01-D6/GATE", "is_blob_verified consults a fresh object only as a fallback", len(fresh), 1, site=iv.site(), func=iv.fi.qualname)
+    for c in fresh:
+        R.gate(ctx, "C01-D6/GATE", iv, c, f"{hp} not in self.blobs", "a second object for a hash is built from the file only when no live object exists — "
+               "a live object that is still being written must answer itself (its file is incomplete)", key=f"C01-D6/GATE|{iv.fi.qualname}|live-object-decides")
+    rets = [r for r in iv.stmts(ast.Return) if iv.guarded(r, f"{hp} in self.blobs")[0]]
+    ok = bool(rets) and all(unparse(r.value) == f"self.blobs[{hp}].get_is_verified()" for r in rets)
+    ctx.ob("C01-D6/DEP", ok, iv.site(), "for a live object the answer is that object's own verified flag", func=iv.fi.qualname, key=f"C01-D6/DEP|{iv.fi.qualname}|live-verdict")
+    gb = ctx.fa(f"{bm}._get_blob")
+    for c in [c for c in gb.calls() if call_name(c) in ("BlobFile", "BlobBuffer")]:
+        a = [unparse(x) for x in c.args]
+        ok = a[:4] == ["self.loop", gb.fi.params()[1], gb.fi.params()[2], "self.blob_completed"]
+        ctx.ob("C01-D6/DEP", ok, gb.site(c), f"{call_name(c)} objects are built for the requested hash and length with the manager's completion callback", func=gb.fi.qualname,
+               key=f"C01-D6/DEP|{gb.fi.qualname}|{call_name(c)}-args")
+    # blob objects are created by the manager only (two objects for one hash = two independent `writing` flags)
+    R.callers_only(ctx, "C01-D6/CALLERS", "_get_blob", [f"{bm}.get_blob", f"{bm}.is_blob_verified", f"{bm}._get_blob"], "blob object factory", floor=2, module_prefix="lbry")
+
+
+def check(ctx):
+    _check_c01_second(ctx)
+    siblings(ctx)
